@@ -298,6 +298,8 @@ def _child(rec):
                     stats["probes"]["trivial_crossings"] = stats["probes"].get("trivial_crossings", 0) + 1
                     perm = torch.arange(ns)
                     perm[row >= 0] = row[row >= 0]
+                    if int((row >= 0).sum()) >= 3:
+                        stats["probes"]["crossings_of_three_or_more_states"] = stats["probes"].get("crossings_of_three_or_more_states", 0) + 1
                     if sorted(perm.tolist()) != list(range(ns)):
                         fail("crossing-not-a-permutation", f"trajectory {m}: relabelling map {perm.tolist()} is not a permutation")
                     elif not decoh:
@@ -392,7 +394,21 @@ def _child(rec):
                 if s > 0 and rng.random() < r_["swap_rate"]:
                     i = rng.randrange(ns - 1)
                     j = min(ns - 1, i + rng.choice([1, 1, 2]))
-                    if i != j:
+                    multi = rng.random() if r_.get("multi_crossings") else 1.0
+                    if multi < 0.3 and ns >= 3:
+                        # three neighbouring states exchange character cyclically in one step
+                        i = rng.randrange(ns - 2)
+                        cyc = [i + 1, i + 2, i] if rng.random() < 0.5 else [i + 2, i, i + 1]
+                        amp = amp.clone()
+                        amp[[i, i + 1, i + 2]] = amp[cyc]
+                        sw = (i, i + 1, i + 2)
+                    elif multi < 0.5 and ns >= 4:
+                        # two disjoint pairs cross in the same step
+                        i = rng.randrange(ns - 3)
+                        amp = amp.clone()
+                        amp[[i, i + 1, i + 2, i + 3]] = amp[[i + 1, i, i + 3, i + 2]]
+                        sw = (i, i + 1, i + 2, i + 3)
+                    elif i != j:
                         amp = amp.clone()
                         amp[[i, j]] = amp[[j, i]]
                         sw = (i, j)
@@ -767,6 +783,7 @@ def gen(rng, tier, i):
             mag=10 ** rng.uniform(-2, 1.2),
             gap=10 ** rng.uniform(-4, math.log10(5)),
             swap_rate=rng.choice([0.0, 0.05, 0.15]),
+            multi_crossings=rng.random() < 0.5,
             vscale=rng.choice([0.005, 0.02, 0.08]),
             at_rest=rng.random() < 0.1,
         )
